@@ -48,9 +48,25 @@ THEOREMS = [
     "MysticVerif.C09.members_fresh_copies",
     "MysticVerif.C09.template_untouched",
     "MysticVerif.C09.ensembles_independent",
+    # whole ensemble runs: members = closed loops of the solver model S (Model/EnsembleRun.lean)
+    "MysticVerif.C09.ensemble_members_in_order",
+    "MysticVerif.C09.ensemble_total_is_cost_calls",
+    "MysticVerif.C09.ensemble_best_is_min_member",
+    "MysticVerif.C09.ensemble_member_stops_truthfully",
+    "MysticVerif.C09.nm_ensemble_total_is_cost_calls",
+    "MysticVerif.C09.lattice_ensemble_members",
+    "MysticVerif.C09.ens_steps_keep_slots",
+    "MysticVerif.C09.finished_member_not_advanced",
+    "MysticVerif.C09.member_steps_eq_run",
+    "MysticVerif.C09.step_mode_eq_solve",
+    # fillpts / SparsitySolver._InitialPoints: the deterministic contract around the optimisation runs
+    "MysticVerif.C09.fillpts_count",
+    "MysticVerif.C09.fillpts_in_range",
+    "MysticVerif.C09.holes_none_maximises_distance",
+    "MysticVerif.C09.holes_tol_prefers_points_inside_the_radius",
 ]
 
-STREAMS = ["grid", "lattice", "samples", "dsamples", "rbin", "ensemble", "fill"]
+STREAMS = ["grid", "lattice", "samples", "dsamples", "rbin", "ensemble", "ensrun", "fill"]
 
 
 def vecf(x):
@@ -752,24 +768,69 @@ def gen_fill(rng):
     if rng.random() < 0.5:
         data = [[a + (b - a) * rng.random() for a, b in zip(lo, hi)] for _ in range(rng.randint(1, 3))]
     rtol = rng.choice([None, None, 0.3, -0.3])
-    return {"dim": dim, "lb": lo, "ub": hi, "npts": npts, "data": data, "rtol": rtol, "seed": rng.randrange(2 ** 31),
-            "via": rng.choice(["fillpts", "sparsity"])}
+    c = {"dim": dim, "lb": lo, "ub": hi, "npts": npts, "data": data, "rtol": rtol, "seed": rng.randrange(2 ** 31),
+         "via": rng.choice(["fillpts", "sparsity"])}
+    if rng.random() < 0.3:
+        c["rtol"] = 0.25          # dyadic radius: probes at EXACTLY the radius exercise the `res < rtol` boundary
+        if data is not None:      # legacy data on a dyadic grid of the (dyadic) box: x + 0.25 - x is exactly 0.25
+            c["data"] = [[a + (b - a) * rng.randrange(9) / 8.0 for a, b in zip(lo, hi)] for _ in data]
+    # probe points for the objective handed to the optimiser: random points of the box, a collected point itself,
+    # a point at exactly |rtol| from a collected point along an axis
+    c["probes"] = [[a + (b - a) * rng.random() for a, b in zip(lo, hi)] for _ in range(3)]
+    return c
 
 
 def impl_fill(c):
     from mystic.math.grid import fillpts
     from mystic.ensemble import SparsitySolver
     _random.seed(c["seed"]); np.random.seed(c["seed"])
+    import mystic.solvers as MS
+    from mystic.math.distance import euclidean
+    orig = MS.diffev          # `from mystic.solvers import diffev as solver` is executed inside fillpts: looked up at call time
+    outs = []; holes_probes = []
+    legacy = [] if (c["data"] is None or c["via"] == "sparsity") else [list(map(float, d)) for d in c["data"]]
+
+    def rec_diffev(holes, *a, **k):
+        now = legacy + outs          # the points collected so far (`pts` of the closure)
+        if now and "probes" in c and (c["rtol"] is None or c["rtol"] > 0):
+            cand = [list(p_) for p_ in c["probes"]] + [list(now[-1])]
+            if c["rtol"]:
+                cand.append([now[0][0] + c["rtol"]] + list(now[0][1:]))
+            for x in cand:
+                d = [float(v) for v in np.asarray(euclidean(now, x, axis=0), dtype=float).ravel()]
+                holes_probes.append({"x": x, "dists": d, "value": float(holes(x))})
+                if c["rtol"] and min(d) == c["rtol"]:
+                    holes_probes[-1]["at_radius"] = True
+        res = orig(holes, *a, **k)
+        outs.append(vecf(res))
+        return res
+    MS.diffev = rec_diffev
     try:
         if c["via"] == "sparsity":
             s = SparsitySolver(c["dim"], npts=c["npts"], rtol=c["rtol"])
             s.SetStrictRanges(list(c["lb"]), list(c["ub"]))
             pts = s._InitialPoints()
-            return {"pts": [vecf(p) for p in pts], "nslots": len(s._allSolvers)}
-        pts = fillpts(list(c["lb"]), list(c["ub"]), c["npts"], None if c["data"] is None else [list(d) for d in c["data"]], c["rtol"])
+            return {"pts": [vecf(p) for p in pts], "nslots": len(s._allSolvers), "outs": outs, "legacy": legacy, "holes": holes_probes}
+        arg = None if c["data"] is None else [list(d) for d in c["data"]]
+        pts = fillpts(list(c["lb"]), list(c["ub"]), c["npts"], arg, c["rtol"])
     except Exception as e:
         return {"err": exc_enum(e) + ":" + repr(e)[:80]}
-    return {"pts": [vecf(p) for p in pts]}
+    finally:
+        MS.diffev = orig
+    return {"pts": [vecf(p) for p in pts], "outs": outs, "legacy": legacy, "holes": holes_probes,
+            "data_after": None if arg is None else [vecf(d) for d in arg]}
+
+
+def lines_fill(c, obs):
+    """the deterministic contract around the optimisation runs: npts handling / legacy data dropped (model `fillpts` with the
+    recorded results of the diffev runs as oracle) and the objective handed to the optimiser (model `holesNone` / `holesTol`
+    from the real distances)"""
+    if "err" in obs or "outs" not in obs:
+        return []
+    out = [("fill", "C09 fill (npts %d) (data (%s)) (outs (%s))" % (c["npts"], " ".join(fl(p_) for p_ in obs["legacy"]), " ".join(fl(p_) for p_ in obs["outs"])))]
+    for i, h in enumerate(obs["holes"][:12]):
+        out.append(("holes:%d" % i, "C09 holes (rtol %s) (dists %s)" % ("none" if c["rtol"] is None else f2b(c["rtol"]), fl(h["dists"]))))
+    return out
 
 
 def monitor_fill(c, obs):
@@ -778,6 +839,10 @@ def monitor_fill(c, obs):
         out.append(("fillpts/raises", "%s raised %s for %r" % (c["via"], obs["err"], c)))
         return out
     pts = obs["pts"]
+    if obs.get("data_after") is not None and not same_pts(obs["data_after"], [list(map(float, d)) for d in c["data"]]):
+        # l.95 `pts = [] if data is None else list(data)`: the caller's legacy data (a monitor's `_x`) must not collect the new points
+        out.append(("fillpts/legacy-data-modified", "fillpts changed the caller's legacy data list: %r -> %r" % (c["data"], obs["data_after"])))
+        return out
     if len(pts) != c["npts"] or obs.get("nslots", c["npts"]) != c["npts"]:
         if c["npts"] == 0 and c["data"] and same_pts(pts, [list(map(float, d)) for d in c["data"]]):
             # `pts = pts[-npts:]` with npts = 0 is `pts[0:]`: the legacy data come back instead of no points
@@ -942,6 +1007,26 @@ def gen_ensemble(rng, tier):
     return c
 
 
+def gen_ensrun(rng, tier):
+    """ensembles whose WHOLE run the model predicts: Nelder-Mead members (the ensembles' default nested solver), every
+    ensemble kind / API / mode / map, ranges, constraints, penalties, limits, terminations; smooth costs (a simplex with
+    tied energies cannot be compared: numpy.argsort leaves the order of ties unspecified)"""
+    c = gen_ensemble(rng, tier)
+    c["nested"] = "NM" if rng.random() < 0.9 else "Powell"
+    c.pop("NP", None)
+    c["cost"] = solvergen.gen_cost(rng, c["dim"], allow_vector=False)
+    if c.get("ranges") and c["ranges"][3] is False:
+        lo, hi, tight, _ = c["ranges"]
+        c["ranges"] = (lo, hi, tight, None)
+    if c["api"] == "wrapper" and c["map"] == "builtin":
+        c["map"] = rng.choice(["fwd", "rev", "shuffle"])       # the members are only visible through the map
+    if c["api"] == "class" and c.get("termination") is not None and c["termination"][0] == "CRT" and c["nested"] != "NM":
+        c["termination"] = ("VTR", 1e-3, 0.0)
+    if c["api"] == "class" and c["mode"] == "solve-step" and not c.get("instance"):
+        c["rerun_solve"] = True         # the same configuration is run again in run-to-completion mode and compared
+    return c
+
+
 class Tape:
     def __init__(self):
         self.cur = None
@@ -1030,9 +1115,13 @@ def make_functions(c, tape):
 
 def member_view(m):
     be = m.bestEnergy
+    try:
+        stopped = any("STOP" in str(t) for t in getattr(m._stepmon, "_info", []))
+    except Exception:
+        stopped = None
     return {"e": float(np.asarray(be, dtype=float).ravel()[0]) if be is not None else None,
             "x": vecf(m.bestSolution), "evals": int(m.evaluations), "gens": int(m.generations),
-            "id": m.id}
+            "id": m.id, "stopped": stopped}
 
 
 def ensemble_view(s):
@@ -1041,6 +1130,8 @@ def ensemble_view(s):
             "x": vecf(s.bestSolution), "evals": int(s.evaluations), "gens": int(s.generations),
             "best_id": s._is_best(), "total": int(s._total_evals), "iters": int(s._total_iters),
             "all_evals": [int(v) for v in s._all_evals], "n": len(s._allSolvers),
+            "all_iters": [int(v) for v in s._all_iters],
+            "all_x": [None if v is None else vecf(v) for v in s._all_bestSolution],
             "all_e": [None if v is None else float(np.asarray(v, dtype=float).ravel()[0]) for v in s._all_bestEnergy]}
 
 
@@ -1149,6 +1240,14 @@ def run_ensemble(c):
             tp.iv = [vecf(x) for x in pts]
             return pts
         s._InitialPoints = rec_ip
+        # number of ensemble `_Step`s taken (step-wise mode): `Step` looks `_Step` up on the instance
+        orig_estep = s._Step
+        ob["n_ens_steps"] = 0
+
+        def cnt_estep(*a, **k):
+            ob["n_ens_steps"] += 1
+            return orig_estep(*a, **k)
+        s._Step = cnt_estep
 
         def observe(tag):
             st = ensemble_view(s)
@@ -1157,16 +1256,19 @@ def run_ensemble(c):
             st["n_cost"] = len(tp.cost)
             st["per_member_cost"] = per_member_counts(tp, len(s._allSolvers))
             ob["states"].append(st)
-        if spec["mode"] == "solve":
-            s.Solve(cost, disp=0)
-            observe("solve")
-        elif spec["mode"] == "solve-step":
-            s.Solve(cost, disp=0, step=True)
-            observe("solve-step")
-        else:
-            for k in range(spec["nsteps"]):
-                s.Step(cost, disp=0)
-                observe("step%d" % k)
+        with RandPatch() as rp:         # numpy.random.rand passes through unchanged and is recorded (samplepts' matrix)
+            if spec["mode"] == "solve":
+                s.Solve(cost, disp=0)
+                observe("solve")
+            elif spec["mode"] == "solve-step":
+                s.Solve(cost, disp=0, step=True)
+                observe("solve-step")
+            else:
+                for k in range(spec["nsteps"]):
+                    s.Step(cost, disp=0)
+                    observe("step%d" % k)
+        if spec["kind"] == "buckshot" and not spec.get("sdist") and rp.log and rp.log[0].shape == (spec["dim"], spec["npts"]):
+            ob["us"] = rp.log[0].tolist()
         ob["member_cfg"] = [member_cfg(m, tstate) for m in s._allSolvers]
         ob["iv"] = tp.iv
         ob["at"] = int(s.id) if s.id else 0
@@ -1273,6 +1375,10 @@ def run_ensemble(c):
             del cls.NP
 
 
+def clip_box(x, lo, hi):
+    return [min(max(v, a), b) for v, a, b in zip(x, lo, hi)]
+
+
 def per_member_counts(tape, n):
     if any(t[0] is None for t in tape.cost):
         return None
@@ -1362,8 +1468,45 @@ def monitor_ensemble(c, obs, tape, hist, tag=""):
             check_members(st["members"], st["e"], st["x"], st["evals"], st["total"], st["n_cost"], st["per_member_cost"], st["tag"])
             if st["all_evals"] != [m["evals"] for m in st["members"]]:
                 out.append((key("all-evals"), "%s: _all_evals %r vs members %r" % (st["tag"], st["all_evals"], [m["evals"] for m in st["members"]])))
+            # the `_all_*` views are the members' own values, slot by slot (in member order)
+            if st.get("all_iters") is not None and st["all_iters"] != [m["gens"] for m in st["members"]]:
+                out.append((key("all-iters"), "%s: _all_iters %r vs the members' generations %r" % (st["tag"], st["all_iters"], [m["gens"] for m in st["members"]])))
+            elif st.get("all_iters") is not None and st["iters"] != sum(m["gens"] for m in st["members"]):
+                out.append((key("total-iters-not-sum"), "%s: _total_iters %r, sum of the members' generations %r" % (st["tag"], st["iters"], sum(m["gens"] for m in st["members"]))))
+            if st.get("all_e") is not None and not (len(st["all_e"]) == len(st["members"]) and all(
+                    (a is None and m["e"] is None) or (a is not None and m["e"] is not None and (same_float(a, m["e"]) or a == m["e"])) for a, m in zip(st["all_e"], st["members"]))):
+                out.append((key("all-bestEnergy"), "%s: _all_bestEnergy %r vs the members' best energies %r" % (st["tag"], st["all_e"], [m["e"] for m in st["members"]])))
+            if st.get("all_x") is not None and not (len(st["all_x"]) == len(st["members"]) and all(
+                    a is not None and same_vec(a, m["x"]) for a, m in zip(st["all_x"], st["members"]))):
+                out.append((key("all-bestSolution"), "%s: _all_bestSolution %r vs the members' best solutions %r" % (st["tag"], st["all_x"], [m["x"] for m in st["members"]])))
             if out:
                 break
+        # step-wise mode: a member that has stopped (its own Step() returned a message: STOP record in its step monitor)
+        # is not advanced by later ensemble Steps - same result, same counters, no further cost calls
+        for a, b in zip(obs["states"], obs["states"][1:]):
+            if out:
+                break
+            for i, (ma, mb) in enumerate(zip(a["members"], b["members"])):
+                if not ma.get("stopped"):
+                    continue
+                same = (ma["evals"] == mb["evals"] and ma["gens"] == mb["gens"] and same_vec(ma["x"], mb["x"]) and
+                        (same_float(ma["e"], mb["e"]) or ma["e"] == mb["e"]))
+                calls_same = a["per_member_cost"] is None or b["per_member_cost"] is None or a["per_member_cost"][i] == b["per_member_cost"][i]
+                rest_same = (ma["evals"] == mb["evals"] and ma["gens"] == mb["gens"] and (same_float(ma["e"], mb["e"]) or ma["e"] == mb["e"]) and calls_same)
+                if rest_same and not same and c["nested"] == "NM" and lo is not None and same_vec(clip_box(ma["x"], lo, hi), mb["x"]):
+                    # known finding F20 seen through the ensemble: the stopped member's Step re-decorates its objective
+                    # (`_live` is False after Finalize) and Nelder-Mead's `_decorate_objective` clips population[0] into the
+                    # strict ranges, keeping the old energy.  No work is done (checked: counters, energy, cost calls).
+                    out.append(("ensemble/finished-member-solution-clipped/NM-strict-ranges-redecoration",
+                                "member %d had stopped at %s with bestSolution %r (outside the strict ranges: Nelder-Mead stores pre-constraint vertices) and the next ensemble Step replaced it by its clipped image %r, keeping the energy %r" % (
+                                    i, a["tag"], ma["x"], mb["x"], ma["e"])))
+                    break
+                if not same or not calls_same:
+                    out.append((key("finished-member-advanced"), "member %d had stopped at %s (%r) and was changed by the next ensemble Step (%r); its cost calls %r -> %r" % (
+                        i, a["tag"], {k_: ma[k_] for k_ in ("e", "x", "evals", "gens")}, {k_: mb[k_] for k_ in ("e", "x", "evals", "gens")},
+                        None if a["per_member_cost"] is None else a["per_member_cost"][i], None if b["per_member_cost"] is None else b["per_member_cost"][i])))
+                    break
+                bump(hist, "ens:finished-member-left-alone")
     # ---- starting points as the ensemble generates them (what `_InitialPoints` hands to the members)
     iv = obs.get("iv")
     if iv is not None:
@@ -1480,6 +1623,40 @@ def monitor_ensemble(c, obs, tape, hist, tag=""):
     return out
 
 
+def monitor_step_vs_solve(c, obs, hist):
+    """step-vs-solve modes (deterministic members): the ensemble run with Solve(step=True) and the same ensemble run to
+    completion leave the same members (result, counters) and report the same best"""
+    out = []
+    c2 = dict(c, mode="solve"); c2.pop("rerun_solve", None)
+    ob2, tape2 = run_ensemble(c2)
+    key = lambda clause: "ensemble/%s/%s/%s" % (clause, c["kind"], c["nested"])
+    if ob2.get("err") or not ob2.get("states") or not obs.get("states"):
+        out.append((key("step-vs-solve/rerun-raises"), "the run-to-completion re-run raised %r" % (ob2.get("err"),)))
+        return out
+    a = obs["states"][-1]; b = ob2["states"][-1]
+    if not same_pts(obs["iv"] or [], ob2["iv"] or []):
+        bump(hist, "ens:step-vs-solve:different-starts")        # not comparable (should not happen: same seeds)
+        return out
+    ma = [(m["e"], m["x"], m["evals"], m["gens"]) for m in a["members"]]
+    mb = [(m["e"], m["x"], m["evals"], m["gens"]) for m in b["members"]]
+    same_m = len(ma) == len(mb) and all((same_float(x[0], y[0]) or x[0] == y[0]) and same_vec(x[1], y[1]) and x[2:] == y[2:] for x, y in zip(ma, mb))
+    lo_hi = (c["ranges"][0], c["ranges"][1]) if c.get("ranges") else None
+    rest_m = len(ma) == len(mb) and all((same_float(x[0], y[0]) or x[0] == y[0]) and x[2:] == y[2:] for x, y in zip(ma, mb))
+    if not same_m and rest_m and c["nested"] == "NM" and lo_hi is not None and all(
+            same_vec(x[1], y[1]) or same_vec(clip_box(y[1], lo_hi[0], lo_hi[1]), x[1]) for x, y in zip(ma, mb)):
+        out.append(("ensemble/finished-member-solution-clipped/NM-strict-ranges-redecoration",
+                    "Solve(step=True) leaves members whose best solutions are the CLIPPED images of the run-to-completion members' (energies and counters equal): step %r solve %r" % (
+                        [m_[1] for m_ in ma], [m_[1] for m_ in mb])))
+    elif not same_m:
+        out.append((key("step-mode-differs-from-solve"), "members after Solve(step=True): %r; after Solve(): %r" % (ma, mb)))
+    elif not ((same_float(a["e"], b["e"]) or a["e"] == b["e"]) and same_vec(a["x"], b["x"]) and a["total"] == b["total"] and a["best_id"] == b["best_id"]):
+        out.append((key("step-mode-reports-differently"), "Solve(step=True) reports (%r, %r, total %r, best %r), Solve() reports (%r, %r, total %r, best %r)" % (
+            a["e"], a["x"], a["total"], a["best_id"], b["e"], b["x"], b["total"], b["best_id"])))
+    else:
+        bump(hist, "ens:step-vs-solve:same-members-and-report")
+    return out
+
+
 def snap_diff(a, b):
     return ["%s: %r -> %r" % (k, a[k], b[k]) for k in a if k != "id" and not same_state(a[k], b[k])]
 
@@ -1534,6 +1711,214 @@ def line_start_dsamples(c, obs, tape):
         fl(c["ranges"][0]), fl(c["ranges"][1]), c["npts"], " ".join(fl(r) for r in init), " ".join(fl(r) for r in calls))
 
 
+# =================================================================== whole ensemble runs replayed by the model
+def ensrun_replayable(c):
+    """configurations the Float driver reproduces from the starting points alone: Nelder-Mead members (the default nested
+    solver), DSL cost / penalty / constraints, no randomising clip=False ranges, an expressible termination"""
+    if c["nested"] != "NM":
+        return False
+    if c.get("ranges") and c["ranges"][3] is False:
+        return False
+    if c.get("instance") and c["mode"] == "solve" and (c.get("penalty") is not None or c.get("constraints") is not None or c.get("ranges")):
+        # a configured nested INSTANCE without an objective receives the ENSEMBLE's decorated cost as its raw objective
+        # (`_solve` l.776-777 `if solver._cost[1] is None: solver.SetObjective(cost)`, `cost` = the ensemble's
+        # `_bootstrap_objective` product) and decorates it again: penalty added twice, constraints applied twice - a
+        # different objective from the one the member model is given (counted, not replayed)
+        return False
+    return ensrun_term(c) is not None
+
+
+def ensrun_term(c):
+    import solvermodel
+    if c["api"] == "wrapper":
+        # lattice()/buckshot()/sparsity() l.262-268: NCOG(ftol, gtol) if gtol else VTRChangeOverGeneration(ftol)
+        t = ("NCOG", c["ftol"], c["gtol"]) if c["gtol"] else ("VTRCOG", c["ftol"], 1e-6, 30, 0.0)
+    else:
+        t = c.get("termination") or ("NCOG", 1e-4, 10)        # the ensembles' default (ensemble.py l.55-57)
+    return solvermodel.term_sexp(t)
+
+
+def line_ensrun(c, ob, hist):
+    """-> (label, request line) or None.  The members are predicted from the starting points alone; for a lattice with a
+    tuple of bins (no noise) and a buckshot with the uniform sampler the starting points themselves come from the model
+    (configuration -> result), otherwise the points `_InitialPoints` generated are passed on."""
+    import solvermodel
+    if not ensrun_replayable(c) or ob.get("err") or ob.get("iv") is None:
+        return None
+    if c["api"] == "wrapper":
+        ms = ob.get("members")
+        if not ms:
+            return None
+        mode = "solve"
+    else:
+        if not ob.get("states"):
+            return None
+        ms = ob["states"][-1]["members"]
+        mode = c["mode"]
+    if len(ob["iv"]) != len(ms) or not ms:
+        return None
+    spec = {"cost": c["cost"], "penalty": c.get("penalty"), "constraints": c.get("constraints"), "ranges": c.get("ranges")}
+    N = c["dim"]; lim = c["limits"]
+    if c["kind"] == "lattice" and "nbins" in c and not c.get("dist"):
+        lo, hi = (c["ranges"][0], c["ranges"][1]) if c.get("ranges") else ([-1000.0] * N, [1000.0] * N)
+        src = "(lattice (%s %s %s %s))" % (fl(lo), fl(hi), nl(c["nbins"]), "true" if c.get("ranges") else "false")
+        bump(hist, "ensrun:starts-from-lattice-model")
+    elif c["kind"] == "buckshot" and ob.get("us") is not None and not c.get("sdist"):
+        lo, hi = (c["ranges"][0], c["ranges"][1]) if c.get("ranges") else ([-1000.0] * N, [1000.0] * N)
+        src = "(samples (%s %s %d (%s)))" % (fl(lo), fl(hi), c["npts"], " ".join(fl(r) for r in ob["us"]))
+        bump(hist, "ensrun:starts-from-samplepts-model")
+    else:
+        src = "(pts (%s))" % " ".join(fl(p_) for p_ in ob["iv"])
+        bump(hist, "ensrun:starts-recorded")
+    fuel = max(m["gens"] for m in ms) + 50
+    head = "%s (term %s) (scale %d %d) (limits %s %s) (fuel %d) (radius %s) (at %d) %s" % (
+        solvermodel.setup_sexp(spec), ensrun_term(c), N * 200, N * 200, solvermodel.lim_str(lim[0]), solvermodel.lim_str(lim[1]),
+        fuel, f2b(0.05), ob.get("at", 0), src)
+    if mode == "solve":
+        return ("run:solve", "C09 ensolve " + head)
+    if mode == "solve-step":
+        return ("run:solve-step", "C09 ensteps " + head + " (untilstop true)")
+    return ("run:steps", "C09 ensteps " + head + " (nsteps %d)" % c["nsteps"])
+
+
+def _x_same(mx, ix, box, hist):
+    """model solution vs implementation solution.  In step-wise mode a STOPPED Nelder-Mead member under strict ranges has its
+    stored best vertex clipped into the ranges by the next ensemble Step (known finding F20, class
+    ensemble/finished-member-solution-clipped/...): the clipped image of the model's solution is accepted there (counted)"""
+    if same_vec(mx, ix):
+        return True
+    if box is not None and same_vec(clip_box(mx, box[0], box[1]), ix):
+        bump(hist, "ensrun:stopped-member-solution-clipped(F20)")
+        return True
+    return False
+
+
+def _mem_diffs(mm, ms, where, box=None, hist=None):
+    """model members ((e x evals gens id) ...) vs the real members' views"""
+    d = []
+    if len(mm) != len(ms):
+        return ["%s: %d members in the model, %d in the implementation" % (where, len(mm), len(ms))]
+    for i, (a, m) in enumerate(zip(mm, ms)):
+        bad = []
+        if m["e"] is None or not same_float(b2f(a[0]), m["e"]):
+            bad.append("bestEnergy model=%r impl=%r" % (b2f(a[0]), m["e"]))
+        if not _x_same(floats_of(a[1]), m["x"], box, hist):
+            bad.append("bestSolution model=%r impl=%r" % (floats_of(a[1]), m["x"]))
+        if int(a[2]) != m["evals"]:
+            bad.append("evaluations model=%s impl=%d" % (a[2], m["evals"]))
+        if int(a[3]) != m["gens"]:
+            bad.append("generations model=%s impl=%d" % (a[3], m["gens"]))
+        if m["id"] is not None and int(a[4]) != m["id"]:
+            bad.append("id model=%s impl=%r" % (a[4], m["id"]))
+        if bad:
+            d.append("%s: member %d: %s" % (where, i, "; ".join(bad)))
+            break
+    return d
+
+
+def _report_diffs(kvbest, total, iters, allevals, st, where, nested, box=None, hist=None):
+    """the model's reduction vs what the ensemble reports"""
+    d = []
+    if not same_float(b2f(kvbest[0]), st["e"]):
+        d.append("%s: reported best energy model=%r impl=%r" % (where, b2f(kvbest[0]), st["e"]))
+    if not _x_same(floats_of(kvbest[1]), st["x"], box, hist):
+        d.append("%s: reported best solution model=%r impl=%r" % (where, floats_of(kvbest[1]), st["x"]))
+    if int(kvbest[2]) != st["evals"]:
+        d.append("%s: reported evaluations model=%s impl=%r" % (where, kvbest[2], st["evals"]))
+    if st.get("gens") is not None and int(kvbest[3]) != st["gens"]:
+        d.append("%s: reported generations model=%s impl=%r" % (where, kvbest[3], st["gens"]))
+    if st.get("best_id") is not None and int(kvbest[4]) != st["best_id"]:
+        d.append("%s: best member id model=%s impl=%r" % (where, kvbest[4], st["best_id"]))
+    if int(total) != st["total"]:
+        d.append("%s: total evaluations model=%s impl=%r" % (where, total, st["total"]))
+    if st.get("iters") is not None and int(iters) != st["iters"]:
+        d.append("%s: total iterations model=%s impl=%r" % (where, iters, st["iters"]))
+    if st.get("all_evals") is not None and [int(t) for t in allevals] != st["all_evals"]:
+        d.append("%s: _all_evals model=%r impl=%r" % (where, allevals, st["all_evals"]))
+    return d
+
+
+def compare_ensrun(c, ob, label, rep, hist):
+    """whole-run replay: every member's result and counters, the ensemble's reduction, the `_all_*` views, the number of
+    cost calls (= the model's evaluation-log lengths), the number of ensemble Steps in step-wise mode - bit for bit"""
+    r = parse_reply(rep)
+    if r[0] != "ok":
+        return ["model replied %r" % rep[:200]]
+    kv = r[1]; d = []
+    mode = label.split(":")[1]
+    box = (c["ranges"][0], c["ranges"][1]) if (c.get("ranges") and mode != "solve") else None
+    if mode in ("solve", "solve-step"):
+        info = kv["info"]
+        if any(i_[-1] == "true" for i_ in info):
+            bump(hist, "ensrun:%s:skipped-simplex-energy-tie" % mode)   # numpy.argsort leaves the order of ties unspecified
+            return []
+        if c["api"] == "wrapper":
+            ret = ob["ret"]
+            st = {"e": ret["fval"], "x": ret["x"], "evals": ret["fcalls"], "gens": ret["iterations"], "total": ret["all_fcalls"]}
+            ms = ob["members"]; ncost = ob["n_cost"]; pmc = None
+        else:
+            st = ob["states"][-1]; ms = st["members"]; ncost = st["n_cost"]; pmc = st["per_member_cost"]
+        d += _mem_diffs(kv["members"], ms, mode, box, hist)
+        if not d:
+            d += _report_diffs(kv["best"], kv["total"], kv["iters"], kv["allevals"], st, mode, c["nested"], box, hist)
+        if not d and st.get("all_e") is not None:
+            if not same_vec(floats_of(kv["allE"]), [float("nan") if v is None else v for v in st["all_e"]]):
+                d.append("_all_bestEnergy model=%r impl=%r" % (floats_of(kv["allE"]), st["all_e"]))
+            if not (len(kv["allX"]) == len(st["all_x"]) and all(_x_same(floats_of(x), y, box, hist) for x, y in zip(kv["allX"], st["all_x"]))):
+                d.append("_all_bestSolution model=%r impl=%r" % ([floats_of(x) for x in kv["allX"]], st["all_x"]))
+            if [int(t) for t in kv["alliters"]] != st["all_iters"]:
+                d.append("_all_iters model=%r impl=%r" % (kv["alliters"], st["all_iters"]))
+        if not d:
+            # the model's evaluation logs ARE the calls of the user's cost: per member and in total
+            if mode == "solve":
+                logs = [int(i_[3]) for i_ in info]
+            else:
+                logs = [int(i_[2]) for i_ in info]
+            if sum(logs) != ncost:
+                d.append("real cost calls %d, the members' evaluation logs in the model hold %d records (%r)" % (ncost, sum(logs), logs))
+            elif pmc is not None and pmc != logs:
+                d.append("real cost calls per member %r, evaluation-log lengths in the model %r" % (pmc, logs))
+        if not d and mode == "solve-step":
+            if int(kv["nsteps"]) != ob.get("n_ens_steps"):
+                d.append("ensemble Steps taken by Solve(step=True): model=%s impl=%r" % (kv["nsteps"], ob.get("n_ens_steps")))
+            elif kv["stopped"] != "true":
+                d.append("the model's ensemble has not stopped after %s Steps" % kv["nsteps"])
+        if not d:
+            bump(hist, "ensrun:%s:replayed" % mode)
+            bump(hist, "ensrun:members-replayed", len(ms))
+            bump(hist, "ensrun:member-iterations-replayed", sum(m["gens"] for m in ms))
+            for i_ in info:
+                bump(hist, "ensrun:member-stop=%s" % i_[0])
+        return d
+    # manual Step loop: the state after EVERY ensemble Step
+    steps = kv["steps"]
+    if len(steps) != len(ob["states"]):
+        return ["model returned %d step states, %d observed" % (len(steps), len(ob["states"]))]
+    for j, (sj, st) in enumerate(zip(steps, ob["states"])):
+        if any(i_[-1] == "true" for i_ in sj[5]):
+            bump(hist, "ensrun:steps:skipped-simplex-energy-tie")
+            return []
+        d += _mem_diffs(sj[0], st["members"], st["tag"], box, hist)
+        if not d:
+            d += _report_diffs(sj[1], sj[2], sj[3], sj[4], st, st["tag"], c["nested"], box, hist)
+        if not d:
+            logs = [int(i_[2]) for i_ in sj[5]]
+            if sum(logs) != st["n_cost"]:
+                d.append("%s: real cost calls %d, evaluation logs in the model %r" % (st["tag"], st["n_cost"], logs))
+            elif st["per_member_cost"] is not None and st["per_member_cost"] != logs:
+                d.append("%s: real cost calls per member %r, evaluation-log lengths in the model %r" % (st["tag"], st["per_member_cost"], logs))
+            stopped_model = [i_[0] != "none" for i_ in sj[5]]
+            stopped_impl = [m.get("stopped") for m in st["members"]]
+            if not d and None not in stopped_impl and stopped_model != stopped_impl:
+                d.append("%s: members that have stopped: model %r impl %r" % (st["tag"], stopped_model, stopped_impl))
+        if d:
+            return d
+    bump(hist, "ensrun:steps:replayed")
+    bump(hist, "ensrun:ensemble-steps-replayed", len(steps))
+    bump(hist, "ensrun:members-replayed", len(ob["states"][-1]["members"]))
+    return d
+
+
 # =================================================================== one case
 def pick_stream(rng, tier):
     k = rng.random()
@@ -1547,8 +1932,10 @@ def pick_stream(rng, tier):
         return "dsamples"
     if k < 0.72:
         return "rbin"
-    if k < 0.97:
+    if k < 0.89:
         return "ensemble"
+    if k < 0.97:
+        return "ensrun"
     return "fill"
 
 
@@ -1602,11 +1989,17 @@ def run_case(seed, shard, k, tier, stream=None):
         if not c["exact"] and c["N"] > 3 and is_prime(c["N"]):
             bump(hist, "rbin:inexact-prime-recursion")
         rec["nontrivial"] = len(obs["keys"]) >= 3
-    elif st == "ensemble":
-        c = gen_ensemble(rng, tier); obs, tape = run_ensemble(c)
+    elif st in ("ensemble", "ensrun"):
+        c = gen_ensemble(rng, tier) if st == "ensemble" else gen_ensrun(rng, tier)
+        obs, tape = run_ensemble(c)
         tape2 = obs.pop("_tape2", None)
         rec["monitor"] = monitor_ensemble(c, obs, tape, hist)
         rec["monitor"] += monitor_template(c, obs, hist)
+        if c.get("rerun_solve") and not obs.get("err"):
+            rec["monitor"] += monitor_step_vs_solve(c, obs, hist)
+        ln = line_ensrun(c, obs, hist)
+        if ln is not None:
+            rec["lines"].append(ln)
         if c["api"] == "wrapper":
             if obs.get("members"):
                 rec["lines"].append(("best:return", line_best(obs["members"])))
@@ -1626,6 +2019,9 @@ def run_case(seed, shard, k, tier, stream=None):
             ln = line_start_dsamples(c2, ob2, tape2)
             if ln is not None:
                 rec["lines"].append(("start2", ln))
+            ln = line_ensrun(c2, ob2, hist)
+            if ln is not None:
+                rec["lines"].append(("run2:" + ln[0].split(":")[1], ln[1]))
             bump(hist, "ens:second-ensemble:%s->%s:%s" % (c["kind"], c2["kind"], c2["mode"]))
         ln = line_template(c, obs)
         if ln is not None:
@@ -1650,7 +2046,19 @@ def run_case(seed, shard, k, tier, stream=None):
     else:
         c = gen_fill(rng); obs = impl_fill(c)
         rec["monitor"] = monitor_fill(c, obs)
+        rec["lines"] += lines_fill(c, obs)
         bump(hist, "fill:%s:rtol=%r" % (c["via"], c["rtol"]))
+        bump(hist, "fill:objective-probes", len(obs.get("holes", [])[:12]))
+        bump(hist, "fill:objective-probes-at-exactly-the-radius", sum(1 for h_ in obs.get("holes", [])[:12] if h_.get("at_radius")))
+        if c["rtol"] and c["rtol"] > 0 and "pts" in obs:
+            # the code as it is: `-res if res < rtol else 0.0` draws the optimiser to points just INSIDE the radius
+            # (Lean: holes_tol_prefers_points_inside_the_radius); not part of C09's statement: counted only
+            allp = obs.get("legacy", []) + obs["pts"]
+            for j, p_ in enumerate(obs["pts"]):
+                others = [q for q in obs.get("legacy", []) + obs["pts"][:j]]
+                if others and min(math.dist(p_, q) for q in others) < c["rtol"]:
+                    bump(hist, "fill:point-closer-than-rtol-to-a-collected-point")
+                    break
         rec["nontrivial"] = c["npts"] >= 1
     rec["case"] = c; rec["obs"] = obs
     return rec
@@ -1693,6 +2101,27 @@ def compare(rec, label, line, rep):
         if int(r[1]["draws"]) != len(obs["keys"]):
             d.append("draws model=%s impl=%d" % (r[1]["draws"], len(obs["keys"])))
         return d
+    if st == "fill":
+        if label == "fill":
+            if r[0] != "ok":
+                return ["fillpts returned %d points, model replied %r" % (len(obs["pts"]), rep[:100])]
+            mp = pts_of(r[1]["pts"])
+            if int(r[1]["n"]) != len(obs["pts"]) or not same_pts(mp, obs["pts"]):
+                return ["fillpts: model %r impl %r (legacy %r, optimiser results %r)" % (mp, obs["pts"], obs["legacy"], obs["outs"])]
+            return []
+        h = obs["holes"][int(label.split(":")[1])]
+        if r[0] != "ok":
+            return ["objective value %r, model replied %r" % (h["value"], rep[:100])]
+        mv = b2f(r[1]["v"])
+        if not (same_float(mv, h["value"]) or mv == h["value"]):     # -0.0 == 0.0: the sign of a zero distance is numpy's
+            return ["objective handed to the optimiser at %r (distances %r): model %r impl %r" % (h["x"], h["dists"], mv, h["value"])]
+        return []
+    if st in ("ensemble", "ensrun") and label.startswith("run"):
+        if label.startswith("run2:"):
+            return compare_ensrun(second_spec(c), obs["second"], label, rep, rec["hist"])
+        return compare_ensrun(c, obs, label, rep, rec["hist"])
+    if st == "ensrun":
+        st = "ensemble"
     if st == "ensemble" and label in ("start", "start2"):
         ob = obs if label == "start" else obs["second"]
         if r[0] != "ok":
@@ -1772,7 +2201,7 @@ def run_cases(specs):
         divs = compare(rec, label, line, rep)
         if divs:
             case = {"gen": rec["gen"], "case": rec["case"], "request": line[:4000], "model": rep[:4000], "impl": trim(rec["obs"])}
-            findings.append(Finding("correspondence", "%s/diverges%s" % (rec["stream"], "/" + label.split(":")[0] if rec["stream"] == "ensemble" else ""),
+            findings.append(Finding("correspondence", "%s/diverges%s" % ("ensemble" if rec["stream"] == "ensrun" else rec["stream"], "/" + label.split(":")[0] if rec["stream"] in ("ensemble", "ensrun") else ""),
                                     "; ".join(divs)[:1500], case))
     for rec in recs:
         for key, what in rec["monitor"]:
@@ -1804,7 +2233,7 @@ def run_shard(pid, seed, shard, ncases, tier, extra):
             hist[k] = hist.get(k, 0) + v
         if rec.get("nontrivial"):
             nontrivial += 1
-            if len(samples) < 2 and rec["stream"] in ("lattice", "ensemble") and rec["lines"]:
+            if len(samples) < 2 and rec["stream"] in ("lattice", "ensemble", "ensrun") and rec["lines"]:
                 samples.append({"gen": rec["gen"], "case": rec["case"], "request": rec["lines"][0][1][:1500],
                                 "model": rec.get("replies", [("", "")])[0][1][:1500], "impl": trim(rec["obs"])})
     return {"evaluations": len(recs), "nontrivial": nontrivial, "model_lines": nlines, "findings": findings,
@@ -1850,15 +2279,23 @@ def main(tier, seed):
             "buckshot starting points from a Distribution, a configured nested solver INSTANCE (with / without its own monitors) snapshotted "
             "around every solve and handed to a SECOND ensemble of the same or another kind (all clauses checked on both; object identities and "
             "the instance's counters compared with the template model); "
-            "fillpts / SparsitySolver._InitialPoints (monitor only). non-trivial = grid with >= 2 non-empty bins and >= 4 points; "
+            "WHOLE ensemble runs with Nelder-Mead members replayed by the closed-loop model from the starting points alone (stream ensrun + every "
+            "NM case of the ensemble stream: Solve, Solve(step=True) with the number of ensemble Steps predicted, manual Step loops compared after "
+            "every Step; lattice starting points from the lattice model, buckshot ones from the samplepts model with the recorded rand matrix; "
+            "every member's result, counters, id, the reduction, _all_* views, cost calls per member = evaluation-log lengths; runs in which a "
+            "simplex has tied energies are skipped and counted), Solve(step=True) re-run in run-to-completion mode and compared; "
+            "fillpts / SparsitySolver._InitialPoints (count and range monitored; npts handling / legacy data dropped replayed with the recorded "
+            "diffev results as oracle; the objective handed to the optimiser probed at random points, at a collected point and at exactly the "
+            "radius). non-trivial = grid with >= 2 non-empty bins and >= 4 points; "
             ">= 2 lattice points; >= 1 sample point; a distribution sample with >= 1 redraw call; randomly_bin with >= 3 sort keys; "
             "ensemble with >= 2 members that evaluated beyond their start")
     tb = ["Lean 4.33 kernel; axioms per theorem listed under coverage.theorems",
           "hand-written model Model/Ensemble.lean tied to grid.py / samples.py / ensemble.py / abstract_ensemble_solver.py by this bit-exact differential run only",
-          "the nested solvers themselves are NOT modelled here (C01-C05, C08): the members' real (bestEnergy, bestSolution, evaluations, generations) are inputs of the bookkeeping model",
-          "member inheritance of bounds/constraints/penalty/limits/termination and 'total = number of real cost calls' are checked on the implementation by the monitor (copy.deepcopy and the map are runtime)",
+          "Nelder-Mead members are the closed-loop model of C01-C05 (Model/ClosedLoop.lean): whole ensemble runs are predicted from the starting points alone; for Powell / DE / DE2 members the members' real (bestEnergy, bestSolution, evaluations, generations) are inputs of the bookkeeping model",
+          "'total = number of real cost calls' is proved on the model (sum of the members' evaluation-log lengths) and tied to the code by comparing the log lengths with the recorded cost calls per member; member inheritance of bounds/constraints/penalty/limits/termination through copy.deepcopy is checked on the implementation by the monitor and, for Nelder-Mead members, by the replay (a member that ran under other settings diverges)",
           "object identity of the members / 'the nested instance is a template' is proved on a store model (Model/Ensemble.lean, section Template) whose allocation step stands for copy.deepcopy; that deepcopy returns an independent object is observed on every run (identities, snapshot of the instance around each solve), not proved",
-          "fillpts is an optimisation run: only count and range membership are checked (monitor)"]
+          "fillpts: the optimisation runs (diffev) are an oracle of the model; count, 'no legacy point returned' and range (given that each run returns a point of its bounds: C02) are proved for every oracle; the distance objective is modelled from the distances (the metric itself is numpy's)",
+          "step-wise mode = run-to-completion mode is proved for every nested solver but Powell (Finalize moves generations); on the implementation it is monitored by re-running Solve(step=True) cases in run-to-completion mode; known finding F20e (a finished Nelder-Mead member's stored best vertex is clipped into the strict ranges by later ensemble Steps) is the one observed difference"]
     assumptions = ["maps are in-process and order-preserving in their RESULT (any evaluation order); a pickling / process-pool map is not exercised",
                    "costs, constraints and penalties are deterministic DSL closures (deep copy keeps the same function object)",
                    "IEEE binary64 + - * / and comparisons agree between Lean Float and CPython / numpy",
